@@ -31,7 +31,7 @@ func (c05) Count(tier string) int {
 	return 130
 }
 
-func buildSQL(items []pItem, w *pWhere) string {
+func c05BuildSQL(items []c05PItem, w *c05PWhere) string {
 	parts := make([]string, len(items))
 	for i, it := range items {
 		parts[i] = it.sql()
@@ -45,16 +45,16 @@ func buildSQL(items []pItem, w *pWhere) string {
 
 func (c05) Gen(rng *rand.Rand, tier string, idx int) Case {
 	var c Case
-	tmpl := genTemplate(rng)
-	var items []pItem
+	tmpl := c05GenTemplate(rng)
+	var items []c05PItem
 	if rng.Intn(10) == 0 {
-		items = []pItem{{kind: "star"}}
+		items = []c05PItem{{kind: "star"}}
 		c.Stat = append(c.Stat, "select-star")
 	} else {
 		n := 1 + rng.Intn(5)
 		seen := map[string]bool{}
 		for len(items) < n {
-			it := genItem(rng, tmpl)
+			it := c05GenItem(rng, tmpl)
 			if seen[it.outName()] && rng.Intn(4) > 0 { // duplicates of an output name are rare on purpose
 				continue
 			}
@@ -63,58 +63,58 @@ func (c05) Gen(rng *rand.Rand, tier string, idx int) Case {
 			c.Stat = append(c.Stat, "item-"+it.kind)
 		}
 	}
-	var w *pWhere
+	var w *c05PWhere
 	if rng.Intn(10) < 7 {
-		w = genWhere(rng, tmpl)
+		w = c05GenWhere(rng, tmpl)
 		c.Stat = append(c.Stat, "where-op"+w.op)
 	}
 	for _, it := range items {
 		c.Cfg = append(c.Cfg, it.tokens())
 	}
 	c.Cfg = append(c.Cfg, w.tokens())
-	c.Cfg = append(c.Cfg, []string{"sql", hx(buildSQL(items, w))})
+	c.Cfg = append(c.Cfg, []string{"sql", hx(c05BuildSQL(items, w))})
 	nrows := 3 + rng.Intn(8)
 	for i := 0; i < nrows; i++ {
 		var row map[string]interface{}
 		if rng.Intn(5) == 0 {
-			row = genTemplate(rng)
+			row = c05GenTemplate(rng)
 		} else {
-			row = mutateValue(rng, tmpl, 3).(map[string]interface{})
+			row = c05MutateValue(rng, tmpl, 3).(map[string]interface{})
 		}
-		c.Stat = append(c.Stat, applyWhereColumn(rng, w, row))
-		c.Ops = append(c.Ops, append([]string{"row"}, encRow(row)...))
+		c.Stat = append(c.Stat, c05ApplyWhereColumn(rng, w, row))
+		c.Ops = append(c.Ops, append([]string{"row"}, c05EncRow(row)...))
 	}
-	sent := copyRow(tmpl)
+	sent := c05CopyRow(tmpl)
 	if w != nil {
-		setPath(sent, w.col, satisfying(w), false)
+		c05SetPath(sent, w.col, c05Satisfying(w), false)
 	}
-	c.Ops = append(c.Ops, append([]string{"async"}, encRow(sent)...))
-	c.Ops = append(c.Ops, append([]string{"full", strconv.Itoa(1 + rng.Intn(3))}, encRow(sent)...))
+	c.Ops = append(c.Ops, append([]string{"async"}, c05EncRow(sent)...))
+	c.Ops = append(c.Ops, append([]string{"full", strconv.Itoa(1 + rng.Intn(3))}, c05EncRow(sent)...))
 	// the field-path resolver on its own (exported API): structured paths incl. negative subscripts,
 	// then raw path strings that reach the parser's error / fallback branches
 	for i := 0; i < 4; i++ {
-		comps := genPath(rng, tmpl, true)
-		var data interface{} = mutateValue(rng, tmpl, 3)
+		comps := c05GenPath(rng, tmpl, true)
+		var data interface{} = c05MutateValue(rng, tmpl, 3)
 		if rng.Intn(6) == 0 {
-			data = genValue(rng, 2)
+			data = c05GenValue(rng, 2)
 		}
-		op := append([]string{"path"}, compTokens(comps)...)
-		c.Ops = append(c.Ops, encValue(data, op))
+		op := append([]string{"path"}, c05CompTokens(comps)...)
+		c.Ops = append(c.Ops, c05EncValue(data, op))
 	}
 	for i := 0; i < 2; i++ {
-		raw := rawPaths[rng.Intn(len(rawPaths))]
+		raw := c05RawPaths[rng.Intn(len(c05RawPaths))]
 		if rng.Intn(3) == 0 {
-			raw = pItem{kind: "path", comps: genPath(rng, tmpl, true)}.srcSQL() + []string{"", ".", "[", "]", "[x]", "['", "xyz", ".."}[rng.Intn(8)]
+			raw = c05PItem{kind: "path", comps: c05GenPath(rng, tmpl, true)}.srcSQL() + []string{"", ".", "[", "]", "[x]", "['", "xyz", ".."}[rng.Intn(8)]
 		}
-		c.Ops = append(c.Ops, encValue(mutateValue(rng, tmpl, 3), []string{"rawpath", hx(raw)}))
+		c.Ops = append(c.Ops, c05EncValue(c05MutateValue(rng, tmpl, 3), []string{"rawpath", hx(raw)}))
 	}
 	return c
 }
 
-var rawPaths = []string{"", "a[x]", "a[", "a..b", ".a", "a.", "[0]", "a[ 1 ]", "a[\"k\"]", "a[+1]", "a[007]", "a[']", "a[\"]", "a['k\"]",
+var c05RawPaths = []string{"", "a[x]", "a[", "a..b", ".a", "a.", "[0]", "a[ 1 ]", "a[\"k\"]", "a[+1]", "a[007]", "a[']", "a[\"]", "a['k\"]",
 	"a[0]x.b", "a[-0]", "a['k'", "b[1][", "a.b[c].d", "c['']", "a[ 'k' ]", "a[9223372036854775808]", "a[-9223372036854775808]", "a[1_0]", ".", "a[]", "a['b.c']", "d[0].[1]"}
 
-func pathRes(data interface{}, path string) (res []string) {
+func c05PathRes(data interface{}, path string) (res []string) {
 	defer func() {
 		if r := recover(); r != nil {
 			res = []string{"panic"}
@@ -124,10 +124,10 @@ func pathRes(data interface{}, path string) (res []string) {
 	if !ok {
 		return []string{"missing"}
 	}
-	return encValue(v, []string{"found"})
+	return c05EncValue(v, []string{"found"})
 }
 
-func syncRes(s *streamsql.Streamsql, row map[string]interface{}) (res []string) {
+func c05SyncRes(s *streamsql.Streamsql, row map[string]interface{}) (res []string) {
 	defer func() {
 		if r := recover(); r != nil {
 			res = []string{"panic"}
@@ -140,20 +140,20 @@ func syncRes(s *streamsql.Streamsql, row map[string]interface{}) (res []string) 
 	if out == nil {
 		return []string{"none"}
 	}
-	return encRow(out)
+	return c05EncRow(out)
 }
 
-func batchToks(b []map[string]interface{}) []string {
+func c05BatchToks(b []map[string]interface{}) []string {
 	t := []string{strconv.Itoa(len(b))}
 	for _, r := range b {
-		t = append(t, encRow(r)...)
+		t = append(t, c05EncRow(r)...)
 	}
 	return t
 }
 
-// asyncRun feeds rows through Emit and returns the sink log and the channel batches.
+// c05AsyncRun feeds rows through Emit and returns the sink log and the channel batches.
 // want = number of batches to wait for; read=false leaves the result channel unread until the end.
-func asyncRun(sql string, rows []map[string]interface{}, want int, nSinks int, chanCap int, read bool) (sinkLog [][]string, chanLog [][]string, err error) {
+func c05AsyncRun(sql string, rows []map[string]interface{}, want int, nSinks int, chanCap int, read bool) (sinkLog [][]string, chanLog [][]string, err error) {
 	var s *streamsql.Streamsql
 	if chanCap > 0 {
 		s = streamsql.New(streamsql.WithDiscardLog(), streamsql.WithBufferSizes(1000, chanCap, 50))
@@ -171,7 +171,7 @@ func asyncRun(sql string, rows []map[string]interface{}, want int, nSinks int, c
 		id := i
 		s.AddSyncSink(func(b []map[string]interface{}) {
 			mu.Lock()
-			sinkLog = append(sinkLog, append([]string{"sink", strconv.Itoa(id)}, batchToks(b)...))
+			sinkLog = append(sinkLog, append([]string{"sink", strconv.Itoa(id)}, c05BatchToks(b)...))
 			if id == nSinks-1 {
 				count0++
 				if count0 == want {
@@ -195,7 +195,7 @@ func asyncRun(sql string, rows []map[string]interface{}, want int, nSinks int, c
 				select {
 				case b := <-ch:
 					mu.Lock()
-					chanLog = append(chanLog, append([]string{"chan"}, batchToks(b)...))
+					chanLog = append(chanLog, append([]string{"chan"}, c05BatchToks(b)...))
 					mu.Unlock()
 					n++
 				case <-stopReader:
@@ -224,7 +224,7 @@ func asyncRun(sql string, rows []map[string]interface{}, want int, nSinks int, c
 		for {
 			select {
 			case b := <-ch:
-				chanLog = append(chanLog, append([]string{"chan"}, batchToks(b)...))
+				chanLog = append(chanLog, append([]string{"chan"}, c05BatchToks(b)...))
 			default:
 				break drain
 			}
@@ -236,17 +236,17 @@ func asyncRun(sql string, rows []map[string]interface{}, want int, nSinks int, c
 }
 
 func (c05) Exec(c Case) [][][]string {
-	var items []pItem
-	var w *pWhere
+	var items []c05PItem
+	var w *c05PWhere
 	for _, l := range c.Cfg {
 		switch l[0] {
 		case "item":
-			items = append(items, parseItemTokens(l[1:]))
+			items = append(items, c05ParseItemTokens(l[1:]))
 		case "where":
-			w = parseWhereTokens(l[1:])
+			w = c05ParseWhereTokens(l[1:])
 		}
 	}
-	sql := buildSQL(items, w)
+	sql := c05BuildSQL(items, w)
 	hist := streamsql.New(streamsql.WithDiscardLog())
 	defer hist.Stop()
 	execErr := hist.Execute(sql)
@@ -260,8 +260,8 @@ func (c05) Exec(c Case) [][][]string {
 				out = append(out, [][]string{{"sync", "execerr"}, {"alone", "execerr"}})
 				continue
 			}
-			rows = append(rows, decRow(op[1:]))
-			r1 := syncRes(hist, decRow(op[1:]))
+			rows = append(rows, c05DecRow(op[1:]))
+			r1 := c05SyncRes(hist, c05DecRow(op[1:]))
 			if r1[0] != "none" {
 				passed++
 			}
@@ -270,7 +270,7 @@ func (c05) Exec(c Case) [][][]string {
 			if err := fresh.Execute(sql); err != nil {
 				r2 = []string{"execerr"}
 			} else {
-				r2 = syncRes(fresh, decRow(op[1:]))
+				r2 = c05SyncRes(fresh, c05DecRow(op[1:]))
 			}
 			fresh.Stop()
 			out = append(out, [][]string{append([]string{"sync"}, r1...), append([]string{"alone"}, r2...)})
@@ -286,10 +286,10 @@ func (c05) Exec(c Case) [][][]string {
 			}
 			all := make([]map[string]interface{}, 0, len(rows)+1)
 			for _, r := range rows {
-				all = append(all, copyRow(r))
+				all = append(all, c05CopyRow(r))
 			}
-			all = append(all, decRow(rowToks))
-			sl, cl, err := asyncRun(sql, all, passed+1, nSinks, capN, read)
+			all = append(all, c05DecRow(rowToks))
+			sl, cl, err := c05AsyncRun(sql, all, passed+1, nSinks, capN, read)
 			if err != nil {
 				out = append(out, [][]string{{"execerr"}})
 				continue
@@ -303,12 +303,12 @@ func (c05) Exec(c Case) [][][]string {
 			}
 			out = append(out, lines)
 		case "path":
-			comps, rest := parseCompTokens(op[1:])
-			data, _ := decValue(rest)
-			out = append(out, [][]string{pathRes(data, pItem{kind: "path", comps: comps}.srcSQL())})
+			comps, rest := c05ParseCompTokens(op[1:])
+			data, _ := c05DecValue(rest)
+			out = append(out, [][]string{c05PathRes(data, c05PItem{kind: "path", comps: comps}.srcSQL())})
 		case "rawpath":
-			data, _ := decValue(op[2:])
-			out = append(out, [][]string{pathRes(data, unhx(op[1]))})
+			data, _ := c05DecValue(op[2:])
+			out = append(out, [][]string{c05PathRes(data, unhx(op[1]))})
 		default:
 			out = append(out, [][]string{{"bad-op", fmt.Sprint(op)}})
 		}
